@@ -15,13 +15,20 @@ import (
 // Sequence exploration with the virtual clock as an event.
 
 type c14Case struct {
-	R      int   `json:"r"`       // retention in resolutions
-	ResSec int   `json:"res_sec"` // resolution in seconds
+	R      int `json:"r"`       // retention in resolutions
+	ResSec int `json:"res_sec"` // resolution in seconds
+	// Start: events run before the enumerated ones (a non-initial start state; checked like the rest)
+	Start  []int `json:"start,omitempty"`
 	Events []int `json:"events"`
 }
 
-// events: 0..9 Ins(key=e/5, j=c14J[e%5]); 10 Clock(+1 res); 11 Clock(+R res); 12 Clock(+1/2 res); 13 Flush; 14 Flush×10; 15 Restart
-const c14NEvents = 16
+// start states: empty table; one point, one resolution old, already on disk
+func c14Starts() [][]int { return [][]int{nil, {1, 13}} }
+
+// events: 0..9 Ins(key=e/5, j=c14J[e%5]); 10 Clock(+1 res); 11 Clock(+R res); 12 Clock(+1/2 res); 13 Flush; 14 Flush×10;
+// 15 (Flush, empty Flush)×10: ten data-carrying flushes, each followed by a flush that finds the memstore empty (an idle
+// flush-timer tick or a forced flush of an idle table) — the bound of ten counts data-carrying flushes only; 16 Restart
+const c14NEvents = 17
 
 func c14Js(r int) []int { return []int{0, 1, r - 1, r, r + 1} }
 
@@ -39,6 +46,8 @@ func c14EventName(cs c14Case, e int) string {
 		return "Flush"
 	case e == 14:
 		return "Flush×10"
+	case e == 15:
+		return "(Flush, empty Flush)×10"
 	}
 	return "Restart"
 }
@@ -54,6 +63,9 @@ type c14Gone struct {
 }
 
 func c14Run(c *fw.Ctx, cs c14Case, checkAlways bool) {
+	if len(cs.Start) > 0 {
+		cs = c14Case{R: cs.R, ResSec: cs.ResSec, Events: append(append([]int{}, cs.Start...), cs.Events...)}
+	}
 	t := c14Table(cs)
 	res := int64(t.Resolution)
 	ret := int64(t.Retention)
@@ -263,7 +275,7 @@ func c14Run(c *fw.Ctx, cs c14Case, checkAlways bool) {
 			model.Advance(now + res/2)
 		case e == 13:
 			db.FlushAll()
-		case e == 14:
+		case e == 14 || e == 15:
 			for f := 0; f < 10; f++ {
 				auxN++
 				if !insert(fmt.Sprintf("aux%d", auxN%3), now) {
@@ -271,6 +283,10 @@ func c14Run(c *fw.Ctx, cs c14Case, checkAlways bool) {
 				}
 				db.FlushAll()
 				c.Transition(2)
+				if e == 15 {
+					db.FlushAll() // nothing in the memstore
+					c.Transition(1)
+				}
 			}
 			// a period has expired once its end is strictly before now - retention
 			// (a point exactly at now - retention is still accepted)
@@ -297,9 +313,9 @@ func c14Run(c *fw.Ctx, cs c14Case, checkAlways bool) {
 
 func init() {
 	fw.Register(&fw.Prop{
-		ID:    "C14",
-		Level: "model_checking",
-		Rule: "all event sequences of the bound over {Ins(k1|k2, now - j·res) for j in {0,1,R-1,R,R+1}, Clock(+1·res), Clock(+R·res), Clock(+½·res), Flush, Flush×10 (ten data-carrying flushes: one of them truncates), Restart} for retention/resolution configurations (R·res, res); after every event on every distinct state: (1) no row for a period in which only expired points arrived, values equal the accepted points only (native, grouped, relative-range and wider-than-retention queries), (2) every accepted period ending after now - retention is returned by the native scan and present in VerifDump, (3) grouped/ranged queries return nothing ending before now - retention - res, (4) periods expired when a Flush×10 completed are absent from the file store and from every later query; non-trivial = sequence containing a clock advance or late point together with a flush/restart",
+		ID:          "C14",
+		Level:       "model_checking",
+		Rule:        "all event sequences of the bound over {Ins(k1|k2, now - j·res) for j in {0,1,R-1,R,R+1}, Clock(+1·res), Clock(+R·res), Clock(+½·res), Flush, Flush×10 (ten data-carrying flushes: one of them truncates), (Flush, empty Flush)×10 (the same with an idle flush between the data-carrying ones), Restart} for retention/resolution configurations (R·res, res), started from the empty table and from a table whose file already holds a point one resolution old; after every event on every distinct state: (1) no row for a period in which only expired points arrived, values equal the accepted points only (native, grouped, relative-range and wider-than-retention queries), (2) every accepted period ending after now - retention is returned by the native scan and present in VerifDump, (3) grouped/ranged queries return nothing ending before now - retention - res, (4) periods expired when a Flush×10 completed are absent from the file store and from every later query; non-trivial = sequence containing a clock advance or late point together with a flush/restart",
 		Assumptions: []string{"'older' is strict: a point exactly at now - retention is kept", "a wider-than-retention ASOF may be refused by the planner"},
 		Shards:      func(tier string) int { return 16 },
 		Budget: func(tier string) time.Duration {
@@ -317,7 +333,8 @@ func init() {
 			var idx int64
 			for _, cf := range cfgs {
 				total := ipow(c14NEvents, cf.n)
-				for i := int64(0); i < total; i++ {
+				for si := int64(0); si < total*int64(len(c14Starts())); si++ {
+					i, start := si%total, c14Starts()[si/total]
 					idx++
 					if !c.Mine(idx) {
 						continue
@@ -326,10 +343,10 @@ func init() {
 						c.Incomplete(fmt.Sprintf("time budget used up in config R=%d res=%d length %d", cf.r, cf.res, cf.n))
 						return
 					}
-					cs := c14Case{R: cf.r, ResSec: cf.res, Events: seqFromIndex(i, c14NEvents, cf.n)}
+					cs := c14Case{R: cf.r, ResSec: cf.res, Start: start, Events: seqFromIndex(i, c14NEvents, cf.n)}
 					c.Eval(1)
 					c.Trace(1)
-					hasClock, hasFlush := false, false
+					hasClock, hasFlush := false, len(start) > 0
 					var evs []string
 					for _, e := range cs.Events {
 						evs = append(evs, c14EventName(cs, e))
